@@ -133,7 +133,13 @@ func runC17(c *harness.Case) {
 		return map[string]interface{}{"kind": kindName, "ttl": effTTL.String(), "history": hist}
 	}
 	clientEvents := 0
+	// every other case the clients send a lease id of 1 with their creates and updates (kubebrain has no leases: a
+	// key's life time must not depend on the field, 1 s is shorter than every TTL in play)
+	leases := c.Index%2 == 0
 	write := func(k *c17Key, op harness.SeqOp) bool {
+		if leases && op.Kind != "delete" {
+			op.Lease = 1
+		}
 		begin := time.Now()
 		out, mis := n.ApplyChecked(m, op)
 		hist = append(hist, fmt.Sprintf("[t=%s] %s -> %s", begin.Format("05.000"), op, out))
@@ -380,6 +386,9 @@ loop:
 	c.Stat("keys_expired", int64(expired))
 	c.Stat("keys_observed", int64(len(keys)))
 	c.AddSet("kinds", kindName)
+	if leases {
+		c.Stat("cases_whose_writes_carried_a_lease_id", 1)
+	}
 	c.Fingerprint(expired > 0, kindName, expiredSet, c.Index)
 	if c.Index < len(c17Kinds) {
 		c.R.Sample = map[string]interface{}{"kind": kindName, "ttl": effTTL.String(), "expired": expiredSet, "history_tail": tailStr(hist, 8)}
